@@ -7,7 +7,7 @@ for d in seeded/C*/; do
   m=$(basename $d); c=$(python3 -c "import json;print(json.load(open('$d/meta.json'))['breaks_property'])")
   p=$d/patch.diff; [ -f $d/patch_rebased_on_current_tree.diff ] && p=$d/patch_rebased_on_current_tree.diff
   git -C /repo apply /verif/$p 2>/dev/null || { echo "$m $c PATCH-DOES-NOT-APPLY" >> seeded/matrix_run.log; continue; }
-  S=$(date +%s); out=$(./check $c --tier quick 2>&1); rc=$?
+  S=$(date +%s); out=$(VERIF_EVIDENCE_DIR=/verif/out/evidence_mutant ./check $c --tier quick 2>&1); rc=$?
   git -C /repo checkout -- .
   v=$(echo "$out" | grep -c "^VIOLATION")
   obl=$(echo "$out" | grep -E "FAILURE" | awk '{print $2}' | sort -u | tr '\n' ',' | cut -c1-160)
